@@ -27,5 +27,6 @@ func TestWorker(t *testing.T) {
 		"C41": checkC41,
 		"C18": checkC18,
 		"C23": checkC23,
+		"C21": checkC21,
 	})
 }
